@@ -33,6 +33,7 @@ def _spec(name):
                     extras=["lmi_two", "partition2", "fn_lmi", "named_ineq"], named=True, fname="func"),
         "qg": dict(cls="ConvexQGFunction", par=0, pattern="none", metric="negdist", init="dist", n=1),
         "unbounded": dict(cls="SmoothConvexFunction", par=0, pattern="sf", metric="dist", init="none", n=1),
+        "els": dict(cls="SmoothStronglyConvexFunction", par=0, pattern="sf", step="els", metric="fval", init="dist", n=2),
         "support": dict(cls="ConvexSupportFunction", par=1, pattern="sl", metric="dist", init="dist", n=1, extras=["partition2", "second_function"]),
     }
     return S[name]
@@ -51,6 +52,20 @@ def prev_program(name):
         c = models.build(_spec("unbounded"))
         solving.solve(c.pep)
     elif name == "raises":
+        try:
+            # a solve that raises WHILE the class constraints are being generated (mu = L: division by L - mu)
+            from PEPit import PEP
+            from PEPit.functions import SmoothStronglyConvexFunction
+            p0 = PEP()
+            f0 = p0.declare_function(SmoothStronglyConvexFunction, mu=1., L=1.)
+            xs0 = f0.stationary_point()
+            x00 = p0.set_initial_point()
+            f0.gradient(x00)
+            p0.set_initial_condition((x00 - xs0) ** 2 <= 1)
+            p0.set_performance_metric((x00 - xs0) ** 2)
+            p0.solve(verbose=0, solver="CLARABEL")
+        except Exception:
+            pass
         try:
             c = models.build(_spec("block"))
             c.pep.solve(verbose=0, solver="CLARABEL", dimension_reduction_heuristic="nope")
@@ -138,7 +153,7 @@ def prev_program(name):
 
 HISTORY_ALPHABET = ["gd", "block", "quad", "linop", "comp", "lmi", "qg", "abandon", "unbounded", "raises", "twice", "heur",
                     "mosek", "nulls", "opts", "fragment", "badkey", "loud"]
-OBSERVED = ["gd", "block", "quad", "lmi", "comp", "nullsum", "lmi@mosek", "block@mosek", "qg", "support", "gd+logdet2", "lmi+trace",
+OBSERVED = ["gd", "block", "quad", "lmi", "comp", "els", "nullsum", "lmi@mosek", "block@mosek", "qg", "support", "gd+logdet2", "lmi+trace",
             "block+logdet1@mosek"]
 
 
